@@ -321,6 +321,13 @@ def main():
     quick += [("PM", s) for s in (["wB", "rA,wB"], ["wB", "rA,rB"], ["wC", "rA,rB,wC"], ["rA,wC", "rB,wC"], ["rA,wB", "wB"], ["-/r=wR1", "-/r=rR0,wR1"], ["-/r=wR1", "-/r=rR0,rR1"], ["wC", "wB", "rA,rB,wC"])]
     quick += [("PR", s) for s in (["wA/r=wR2,rR0", "wB/r=wR2"], ["-/r=wR2,rR0", "-/r=wR2"], ["wA/r=wR1", "wB/r=wR1"], ["wA/r=rR1", "wB/r=wR1"], ["wC/e=wB,wA", "wA"], ["wA", "wC/e=rB,rA"])]
     quick += [("P8", s) for s in (["wA", "rA", "wA", "rA"], ["wB", "wA", "rA", "wA"], ["rA", "wA", "wB", "wA"])]
+    # the decision table of entry views against plain views: a task that reaches A only through its entry views (required and
+    # optional, shared and exclusive) next to a reader / writer of A, in both orders where it matters (round 12, C07-10)
+    quick += [("PX1", s) for s in (["rA", "-/e=pA"], ["-/e=pA", "rA"], ["rA", "-/e=wA"], ["-/e=wA", "rA"], ["-/e=rA", "wA"], ["-/e=oA", "wA"],
+                                    ["-/e=rA", "rA"], ["-/e=oA", "rA"])]
+    quick += [("PE", ["rB/e=pA", "oA"])]
+    # resource claims that merge while the component claims conflict on a shared table (round 12, C15-9)
+    quick += [("PR", s) for s in (["wA", "wA/r=wR0"], ["wA/r=rR0", "wA/r=rR0"])]
     qset = {tuple(s) for _, s in quick}
     extra = []
     for p, lst in P.items():
